@@ -9,7 +9,8 @@ Inductive gres :=
 | GValue (x : value)
 | GError (e : err)
 | GRefused
-| GPanic.
+| GPanic
+| GHang.       (* the statement did not finish within the time limit *)
 
 (* what Go did with one input: its trees (as parsed), result per tree, the
    output of the whole input without error reports, the counters afterwards *)
@@ -49,7 +50,7 @@ Fixpoint run_trees (nostck : bool) (mc : machine) (ts : list node) (gs : list gr
       if v_grew_captured (mc_vm mc') then (mc', 2)
       else if v_dead_read (mc_vm mc') then (mc', 3)
       else match r with
-           | TFuel => (mc', 4)
+           | TFuel => (mc', match g with GHang => 5 | _ => 4 end)
            | _ => if tree_agrees r g then
                     match g with
                     | GPanic => (mc', 5)      (* both abort: the session ends here *)
